@@ -22,6 +22,7 @@ class CliResult:
         self.writes = []       # (path, mode, data)
         self.stdout = b""
         self.stderr = ""
+        self.stderr_chunks = []
         self.crash = None
 
 
@@ -61,6 +62,17 @@ class _Stdout:
     def flush(self):
         pass
 
+    # CrossHair's patched print() deep-realises its keyword arguments, i.e. copies the object given as file=...:
+    # the stream must stay the one the harness reads afterwards
+    def __deepcopy__(self, memo):
+        return self
+
+    def __copy__(self):
+        return self
+
+    def __ch_deep_realize__(self, memo):
+        return self
+
 
 def run_cli(infiles, sources, *, outfile=None, implicit_bin=False, lst=False, charset="bk", report_format="graphical",
             warnings=None, compiler_cls=None, parse_fn=None):
@@ -80,7 +92,7 @@ def run_cli(infiles, sources, *, outfile=None, implicit_bin=False, lst=False, ch
         raise FileNotFoundError(path)
 
     saved = (cli.argparser.parse_args, cli.__dict__.get("open"), cli.open_device, comp_mod.open_device, cli.Compiler, cli.parser.parse)
-    out, err = _Stdout(), io.StringIO()
+    out, err = _Stdout(), _Stdout()
     cli.argparser.parse_args = lambda *a, **k: ns
     cli.open = fake_open
     cli.open_device = rec.open_device
@@ -113,9 +125,10 @@ def run_cli(infiles, sources, *, outfile=None, implicit_bin=False, lst=False, ch
         del deferred.Awaiting.awaiting_stack[:]
         deferred.try_compute.depth = 0
     res.stdout = out.chunks
+    res.stderr_chunks = err.chunks      # what was printed to standard error, piece by piece (pieces may be symbolic under tracing)
     with notrace():
         try:
-            res.stderr = err.getvalue()
+            res.stderr = "".join(c if isinstance(c, str) else c.decode("utf-8", "replace") for c in err.chunks)
         except Exception:
             res.stderr = ""
     return res
